@@ -27,26 +27,29 @@ if [ "$1" = "--replay" ] && [ -n "$2" ]; then
 fi
 PROG="$HERE/.progress-$ID-$$"
 rm -rf "$PROG"; mkdir -p "$PROG"
-PVMC_PROGRESS="$PROG" "$BIN/pvmc-surface" "$ID" "$TIER"
+STALL=${PVMC_STALL_S:-120}
+PVMC_PROGRESS="$PROG" python3 "$HERE/surface/watch.py" "$PROG" "$STALL" "$BIN/pvmc-surface" "$ID" "$TIER"
 RC=$?
 if [ $RC -gt 2 ]; then
   # the runner died (stack overflow / abort inside the library): attribute it to the case in flight
   CASE=$(head -n 1 "$PROG"/slot-* 2>/dev/null | head -n 1)
+  WHY="the compiled surface program aborted the process (stack overflow or fatal runtime error)"
+  [ -f "$PROG/hang" ] && WHY="the compiled surface program did not return within $STALL s (one engine step or one goal never ends)"
   mkdir -p "$HERE/replays"
   R="$HERE/replays/$ID-crash-$$.json"
-  python3 - "$ID" "$TIER" "$CASE" "$R" "$HERE" <<'PY'
+  python3 - "$ID" "$TIER" "$CASE" "$R" "$HERE" "$WHY" <<'PY'
 import json, sys, os
-pid, tier, case, path, verif = sys.argv[1:6]
+pid, tier, case, path, verif, why = sys.argv[1:7]
 parts = case.split('\t')
 fam, idx = (parts[0], int(parts[1])) if len(parts) >= 2 and parts[1].isdigit() else (pid.lower() + '-surface', -1)
-json.dump({"property": pid, "tier": tier, "family": fam, "index": idx, "kind": "crash", "detail": "the compiled surface program aborted the process (stack overflow or fatal runtime error)"}, open(path, 'w'), indent=1)
+json.dump({"property": pid, "tier": tier, "family": fam, "index": idx, "kind": "crash", "detail": why}, open(path, 'w'), indent=1)
 ev = {"property_id": pid, "tier": tier, "seed": 0, "level": "model_checking",
       "coverage": {"evaluations": max(idx, 1), "distinct_nontrivial": 1, "exhaustive": False, "samples": [{"family": fam, "index": idx}],
                    "explanation": "the runner aborted while executing the sampled case"}, "wall_s": 0.0, "violations": 1}
 json.dump(ev, open(os.path.join(verif, 'evidence', pid + '.json'), 'w'), indent=1)
 PY
   echo "VIOLATION property=$ID replay=$R"
-  echo "  kind=crash case in flight: $CASE"
+  echo "  kind=crash case in flight: $CASE ($WHY)"
   RC=1
 fi
 rm -rf "$PROG"
